@@ -316,55 +316,60 @@ def run_check(pid: str, tier: str, verif_seed: int, runs: int | None, workers: i
             known_seen[f["id"]] += len(items)
             continue
         n_viol += len(items)
-        kind, index, msg, plan = min(items, key=lambda t: core.plan_size(t[3]))
-        # confirm in-process, minimise, then confirm in a fresh interpreter
-        try:
-            r = prop.execute(plan)
-        except Exception:
-            r = None
-        if r is None or not any(v.sig == sig for v in r.violations):
-            # not reproducible in isolation: does it depend on the runs that preceded it in the same worker process
-            # (state leaking across runs through a process-global of the code under test)?
-            path = None
-            if plan.get("run_index") is not None and plan.get("population") in ("seed", "sys"):
+        # Confirmation ladder. Every reported violation is re-executed from its replay file in a FRESH interpreter:
+        #   1. the minimised plan, 2. the unminimised plan, 3. the plan preceded by the three runs that preceded it in the
+        #   batch ("prelude": the violation depends on state the code under test leaks across runs in one process).
+        # Several occurrences are tried; what never reproduces is not reported as a violation.
+        confirmed = None
+        cands = sorted(items, key=lambda t: core.plan_size(t[3]))[:6]
+        for kind, index, msg, plan in cands:
+            try:
+                r = prop.execute(plan)
+            except Exception:
+                r = None
+            if r is None or not any(v.sig == sig for v in r.violations):
+                continue
+            unmin = write_replay(pid, plan, sig, r.log.digest(), msg, directory="replays/unminimised")
+            code, _ = fresh_replay(pid, unmin)
+            if code != 1:
+                continue       # only failed in this process because of leaked state: try another occurrence / the prelude
+            small, execs = plan, 0
+            if reported < 6:
+                small, execs = core.minimise(plan, sig, prop.execute, prop.candidates)
+            path = unmin
+            if small is not plan:
+                r2 = prop.execute(small)
+                if any(v.sig == sig for v in r2.violations):
+                    p2 = write_replay(pid, small, sig, r2.log.digest(), next(v.msg for v in r2.violations if v.sig == sig))
+                    if fresh_replay(pid, p2)[0] == 1:
+                        path = p2
+                    else:
+                        small = plan
+                else:
+                    small = plan
+            confirmed = (path, kind, index, msg, f"minimised_in={execs} execs size {core.plan_size(plan)}->{core.plan_size(small)} "
+                                               f"unminimised={unmin}")
+            break
+        if confirmed is None:
+            for kind, index, msg, plan in cands[:3]:
+                if plan.get("run_index") is None or plan.get("population") not in ("seed", "sys"):
+                    continue
                 pk = plan["population"]
-                prelude = [_plan_for(prop, pid, verif_seed, tier, pk, j) for j in range(max(0, index - 3), index)]
                 doc = dict(plan)
-                doc["prelude"] = prelude
+                doc["prelude"] = [_plan_for(prop, pid, verif_seed, tier, pk, j) for j in range(max(0, index - 3), index)]
                 tmp = write_replay(pid, doc, sig, "", msg)
-                code, outp = fresh_replay(pid, tmp)
-                if code == 1:
-                    path = tmp
-            if path is None:
-                not_repro.append((kind, index, sig))
-                continue
-            n_viol += 0
-            print(f"VIOLATION property={pid} replay={path}")
-            print(f"  signature={list(sig)} occurrences={len(items)} first_run={kind}:{index} NOTE: reproduces only after the "
-                  f"preceding runs recorded as 'prelude' in the replay file (state leaks across runs in one process)")
-            print("  " + msg[:600].replace("\n", "\n  "))
-            if rc == 0:
-                rc = 1
+                if fresh_replay(pid, tmp)[0] == 1:
+                    confirmed = (tmp, kind, index, msg, "NOTE: reproduces only after the preceding runs recorded as 'prelude' in the "
+                                                        "replay file (state leaks across runs in one process)")
+                    break
+        if confirmed is None:
+            kind, index, msg, plan = cands[0]
+            not_repro.append((kind, index, sig))
             continue
-        unmin = write_replay(pid, plan, sig, r.log.digest(), msg, directory="replays/unminimised")
         reported += 1
-        if reported <= 6:
-            small, execs = core.minimise(plan, sig, prop.execute, prop.candidates)
-        else:
-            small, execs = plan, 0   # many distinct signatures: only the first six are minimised (bounded report time)
-        r2 = prop.execute(small)
-        path = write_replay(pid, small, sig, r2.log.digest(), next(v.msg for v in r2.violations if v.sig == sig))
-        code, outp = fresh_replay(pid, path)
-        if code != 1:
-            code2, outp2 = fresh_replay(pid, unmin)
-            if code2 == 1:
-                path = unmin   # the minimised plan only failed because of state left by the shrinker's earlier executions
-            else:
-                not_repro.append((kind, index, sig))
-                continue
+        path, kind, index, msg, note = confirmed
         print(f"VIOLATION property={pid} replay={path}")
-        print(f"  signature={list(sig)} occurrences={len(items)} first_run={kind}:{index} "
-              f"minimised_in={execs} execs size {core.plan_size(plan)}->{core.plan_size(small)} unminimised={unmin}")
+        print(f"  signature={list(sig)} occurrences={len(items)} first_run={kind}:{index} {note}")
         print("  " + msg[:600].replace("\n", "\n  "))
         if rc == 0:
             rc = 1
